@@ -7,9 +7,9 @@
 (* facts) so that random walks produce sparse as well as dense graphs.     *)
 (* One REPLAY line per completed behaviour.                                *)
 (***************************************************************************)
-EXTENDS HpoSim, Json
+EXTENDS HpoSetOps, Json
 
-CONSTANTS MaxEdges, MaxFacts, WithPairs
+CONSTANTS MaxEdges, MaxFacts, WithPairs, WithExtras
 
 VARIABLES edges, facts, budget
 
@@ -48,7 +48,9 @@ FSpec == FInit /\ [][FNext]_fullVars
 Done == phase = "connected" /\ Len(facts) = budget.facts
 
 Expect == [ arena |-> arena, edges |-> edges, facts |-> facts, expect |-> Proj,
-            pairs |-> IF WithPairs THEN SimPairs ELSE <<>> ]
+            pairs |-> IF WithPairs THEN SimPairs ELSE <<>>,
+            paths |-> IF WithExtras THEN PathPairs ELSE <<>>,
+            sets |-> IF WithExtras THEN SetInfos ELSE <<>> ]
 Emit == Done => PrintT(<<"REPLAY", ToJson(Expect)>>)
 
 RecsSim == [k \in Kinds |-> IF k = "gene" THEN {1, 2, 3} ELSE IF k = "omim" THEN {1, 2} ELSE {1}]
